@@ -91,6 +91,16 @@ func lenLowerBound(at ssa.Instruction, sl ssa.Value) int64 {
 		if !ok {
 			continue
 		}
+		// `m.Unpack(b)` returned nil: miekg/dns refuses anything shorter than the 12-byte header (D48's unpackQuery reads
+		// the four section counts of b after a successful Unpack)
+		if cm.Op == token.EQL && isNilConst(cm.Y) {
+			if cl, isC := cm.X.(*ssa.Call); isC && callName(cl) == "(*github.com/miekg/dns.Msg).Unpack" && len(cl.Call.Args) == 2 && same(cl.Call.Args[1]) {
+				if lb < 12 {
+					lb = 12
+				}
+				continue
+			}
+		}
 		op, x, y := cm.Op, cm.X, cm.Y
 		if !isLen(x) && isLen(y) {
 			op, x, y = flipOp(op), y, x
